@@ -42,7 +42,7 @@ pub struct Case {
 }
 
 fn wh() -> impl Strategy<Value = Where> {
-    let p = || prop_oneof![4 => any::<u16>(), 2 => prop::sample::select(vec![0u16, 53, 80, 111, 445, 3478, 65535, 22, 139])];
+    let p = || prop_oneof![4 => any::<u16>(), 2 => prop::sample::select(vec![0u16, 53, 80, 111, 445, 3478, 65535, 22, 139, 5353, 137, 123, 161, 443, 8080, 2222, 25, 21, 23, 3389, 2049, 1, 1023, 1024, 49151, 49152, 65534])];
     (any::<bool>(), any::<[u8; 4]>(), any::<[u8; 4]>(), any::<[u8; 16]>(), any::<[u8; 16]>(), p(), p()).prop_map(|(v4, c4, s4, c6, s6, sport, dport)| Where { v4, c4, s4, c6, s6, sport, dport })
 }
 
@@ -207,6 +207,87 @@ pub fn check(c: &Case, st: &mut Stats) -> Check {
     }
 }
 
+// ---------------------------------------------------------------------------------------
+// exhaustive port sweeps for golden requests
+
+#[derive(Clone, Debug, Serialize, Deserialize)]
+pub struct Sweep {
+    pub golden: usize,
+    pub tcp: bool,
+    pub v4: bool,
+    /// true: vary the destination port (source port 40000); false: vary the source port (destination 40001)
+    pub vary_dport: bool,
+    pub port: u16,
+}
+
+pub fn goldens() -> Vec<(&'static str, AppReq)> {
+    let dns = DnsQuery { id: 0x4242, flags: 0x0100, questions: vec![DnsQuestion { labels: vec![Hex(b"www".to_vec()), Hex(b"example".to_vec()), Hex(b"org".to_vec())], qtype: 1, qclass: 1 }] };
+    let rpc = |version: u32, procedure: u32| RpcCall { xid: 0x72fe1d13, rpcvers_low: 2, program: 100000, version, procedure, cred_flavor: 0, cred: Hex(vec![]), verf_flavor: 0, verf: Hex(vec![]), args: Hex(vec![]) };
+    let h1 = Smb1Hdr { command: 0x72, status: 0, flags: 0x18, flags2: 0xc843, pid_high: 1, signature: [0; 8], tid: 2, pid_low: 0xfffe, uid: 3, mid: 4 };
+    let h2 = |command: u16| Smb2Hdr { credit_charge: 0, status: 0, command, credits: 31, flags: 0, next_command: 0, message_id: 5, async_id: 6, session_id: 7, signature: [0; 16] };
+    vec![
+        ("http", AppReq::Http(HttpReq { verb: 0, target: Hex(b"index.html".to_vec()), major: "1".into(), minor: "1".into(), headers: vec![("Host".into(), Hex(b" example.org".to_vec()))], crlf: vec![true; 8], tail: Hex(vec![]) })),
+        ("ssh", AppReq::Ssh(SshBanner { v199: false, vtail: String::new(), software: Hex(b"OpenSSH_8.2p1".to_vec()), comment: Some(Hex(b"Ubuntu".to_vec())), tail: Hex(vec![]) })),
+        ("ghost", AppReq::Ghost(Hex(b"Gh0st\x16\x00\x00\x00\x01\x00\x00\x00x\x9cc\x00\x00\x00\x01\x00\x01".to_vec()))),
+        ("stun", AppReq::Stun(StunReq { mtype: 1, magic: true, id: [7; 16], attrs: vec![] })),
+        ("stun-change-port", AppReq::Stun(StunReq { mtype: 1, magic: false, id: [9; 16], attrs: vec![StunAttr { typ: 3, value: Hex(vec![0, 0, 0, 2]) }] })),
+        ("dns", AppReq::Dns(dns)),
+        ("rpc-getport-v2", AppReq::Rpc(rpc(2, 3))),
+        ("rpc-dump-v3", AppReq::Rpc(rpc(3, 4))),
+        ("rpc-null", AppReq::Rpc(rpc(4, 0))),
+        ("smb1-negotiate", AppReq::Smb(SmbReq::Smb1Negotiate { hdr: h1, dialects: vec!["NT LANMAN 1.0".into(), "NT LM 0.12".into()] })),
+        ("smb2-negotiate", AppReq::Smb(SmbReq::Smb2Negotiate { hdr: h2(0), dialects: vec![0x0202, 0x0210, 0x0311], secmode: 1, caps: 0x7f, guid: [3; 16], trailer: Hex(vec![]) })),
+        ("smb2-session-setup", AppReq::Smb(SmbReq::Smb2SessionSetup { hdr: h2(1), blob: Hex(vec![0x60, 0x48, 6, 6, 0x2b, 6, 1, 5, 5, 2]), flags: 0, secmode: 1, caps: 1, channel: 0, prev: 0 })),
+    ]
+}
+
+fn sweep_where(s: &Sweep, reference: bool) -> Where {
+    let (sport, dport) = if reference { (40000, 40001) } else if s.vary_dport { (40000, s.port) } else { (s.port, 40001) };
+    Where { v4: s.v4, c4: [198, 51, 100, 7], s4: [203, 0, 113, 9], c6: [0x20, 1, 0xd, 0xb8, 0, 1, 0, 0, 0, 0, 0, 0, 0, 0, 0, 7], s6: [0x20, 1, 0xd, 0xb8, 0, 2, 0, 0, 0, 0, 0, 0, 0, 0, 0, 9], sport, dport }
+}
+
+/// (responder, masked reply, source-port offset) of the golden request in one context
+fn sweep_ask(sut: &Sut, c: &Case, w: &Where, payload: &[u8]) -> Result<Option<(Responder, Vec<u8>, u16)>, Failure> {
+    match ask(sut, c, w, payload)? {
+        None => Ok(None),
+        Some((a, sp)) => {
+            let who = classify_reply(&a, c.tcp);
+            let m = masked(who, &a, c.tcp).map_err(|e| Failure::new(format!("golden reply does not decode: {}", e)))?;
+            Ok(Some((who, m, sp.wrapping_sub(w.dport))))
+        }
+    }
+}
+
+pub fn sweep_check(s: &Sweep, st: &mut Stats, reference: &mut Option<Option<(Responder, Vec<u8>, u16)>>) -> Check {
+    let g = goldens();
+    let (name, req) = &g[s.golden % g.len()];
+    let c = Case { mac: [0x02, 0x42, 0xac, 0x11, 0x00, 0x02], cmac: [2, 0, 0, 0, 0, 9], key: [11, 22], tcp: s.tcp, pay: Pay::App(req.clone()), a: sweep_where(s, true), b: sweep_where(s, false) };
+    let mut cfg = Cfg::plain(c.mac);
+    cfg.key = c.key;
+    let sut = Sut::new(&cfg);
+    let payload = c.pay.bytes(c.tcp);
+    if reference.is_none() {
+        *reference = Some(sweep_ask(&sut, &c, &c.a, &payload)?);
+    }
+    st.eval();
+    st.frames(if s.tcp { 2 } else { 1 });
+    let got = sweep_ask(&sut, &c, &c.b, &payload)?;
+    let refv = reference.as_ref().unwrap();
+    let what = format!("golden request '{}' over {} IPv{} with {} port {}", name, if s.tcp { "TCP" } else { "UDP" }, if s.v4 { 4 } else { 6 }, if s.vary_dport { "destination" } else { "source" }, s.port);
+    match (refv, &got) {
+        (None, None) => Ok(()),
+        (Some(_), None) => vfail!("{}: not answered (answered on ports 40000 -> 40001)", what),
+        (None, Some(_)) => vfail!("{}: answered (not answered on ports 40000 -> 40001)", what),
+        (Some((w0, m0, o0)), Some((w1, m1, o1))) => {
+            st.nontrivial(&(s.golden, s.tcp, s.v4, s.vary_dport, s.port));
+            vensure!(w0 == w1, "{}: answered by {:?} instead of {:?}", what, w1, w0);
+            vensure!(o0 == o1, "{}: reply source port offset {} instead of {}", what, o1, o0);
+            vensure!(m0 == m1, "{}: reply differs from the one on ports 40000 -> 40001 beyond the endpoint-address fields: {} vs {}", what, hex(&m1[..m1.len().min(120)]), hex(&m0[..m0.len().min(120)]));
+            Ok(())
+        }
+    }
+}
+
 impl Prop for C19 {
     fn id(&self) -> &'static str {
         "C19"
@@ -217,8 +298,46 @@ impl Prop for C19 {
     fn run(&self, ctx: &mut RunCtx) {
         let n = ctx.share(ctx.tier.n(600_000, 8_000_000));
         ctx.run_generated("where", n, case_strategy(), check);
+        // exhaustive: every destination port and every source port for each golden request
+        let ng = goldens().len();
+        let mut combo = 0u64;
+        for golden in 0..ng {
+            for tcp in [false, true] {
+                if tcp && goldens()[golden].0 == "dns" {
+                    continue; // DNS is the datagram fallback only
+                }
+                for v4 in [true, false] {
+                    for vary_dport in [true, false] {
+                        combo += 1;
+                        let mut reference = None;
+                        let mut bad = 0;
+                        for port in 0..=65535u16 {
+                            if !ctx.owns(port as u64 + combo) {
+                                continue;
+                            }
+                            let s = Sweep { golden, tcp, v4, vary_dport, port };
+                            let r = sweep_check(&s, ctx.st, &mut reference);
+                            if !ctx.run_one("sweep", &s, r) {
+                                bad += 1;
+                                if bad > 2 {
+                                    break;
+                                }
+                            }
+                        }
+                    }
+                }
+            }
+        }
+        if ctx.worker == 0 {
+            ctx.st.exhaustive_parts.push("ports: all 65536 destination ports and all 65536 source ports for 12 golden requests (one per protocol / request kind) x {UDP, TCP} x {IPv4, IPv6}".into());
+        }
     }
-    fn replay(&self, _stream: &str, case: &Value, st: &mut Stats) -> Check {
+    fn replay(&self, stream: &str, case: &Value, st: &mut Stats) -> Check {
+        if stream == "sweep" {
+            let s: Sweep = serde_json::from_value(case.clone()).map_err(|e| Failure::new(format!("bad case: {}", e)))?;
+            let mut reference = None;
+            return sweep_check(&s, st, &mut reference);
+        }
         check(&serde_json::from_value(case.clone()).map_err(|e| Failure::new(format!("bad case: {}", e)))?, st)
     }
 }
